@@ -23,7 +23,18 @@ CFG = {
             "same step twice, one check on two objects, namesakes in both orders, failing-then-passing and passing-then-failing; n/4 random "
             "sequences over the family pools with registrations between the checks + n/4 random sequences over random recursive contexts "
             "with a shadowed name and fitted objects; every step is also run ALONE on freshly built contexts and must give the same "
-            "verdict and work count; non-trivial = named (recursive) specification or a reference cycle in the graph (sequences: and at "
+            "verdict and work count; ALIAS CYCLES AND CHAINS (Driver/C09Alias.lean, corpus alias_cycles.case): specification cycles made "
+            "only of names and one-option disjunctions (self alias a=[a], 2-/3-cycles, lassos, chains of 1,2,3 (thorough 5) and "
+            "10..50 aliases ending in a registered Integer, an anonymous Integer, a recursive dictionary type that goes back through "
+            "the chain, a dangling name, or back into the chain) x link variants (one option = the alias; two options; the same "
+            "option twice; predicate always / choice; indirect required / forbidden; on the last, the first or all links) x 9 "
+            "positions of the name (top, first / second alternative, array element, het position, dictionary / star / stream entry, "
+            "through another registered type) x scalar objects, references, a self reference, an array containing itself, a "
+            "dictionary containing itself (quick 8568 cases, thorough 46440) + n/4 random alias graphs (every link a random target: "
+            "arbitrary cycles) at nested positions with fitted or pooled objects; `achain n int|cyc|self` n = 1..400 and 1000, 10000 "
+            "aliases in the 256 KiB-stack thread (call depth independent of the number of names followed); the verdict of these cases "
+            "is also judged against the declarative oracle (greatest fixed point: an alias cycle is satisfied by every object) inside "
+            "F1/F2 and for completeness (contexts of <= 8 definitions); non-trivial = named (recursive) specification or a reference cycle in the graph (sequences: and at "
             "least two checks)",
     "trusted_base": COMMON_TB + [
         "modelled, not verified: BTreeSet/VecDeque/Rc semantics; machine stack and wall-clock are observed, not modelled",
